@@ -74,7 +74,10 @@ def gen_history(rng, nh=3, maxlen=25, crash=False, big=False, views=False):
                 i, j = rng.sample(cl, 2)
                 ops.append(("dup", i, j))
             continue
-        kind = rng.choice(["put", "put", "put", "get", "get", "keys"] + (["items", "values", "keys"] if views else []))
+        kind = rng.choice(["put", "put", "put", "get", "get", "keys"] + (["items", "values", "keys", "hdr"] if views else []))
+        if kind == "hdr":
+            ops.append(("hdr", rng.randrange(nh)))
+            continue
         if kind in ("items", "values"):
             i = rng.choice(open_hs) if rng.random() < 0.9 else rng.randrange(nh)
             ops.append((kind, i))
@@ -110,6 +113,8 @@ def op_coq(o, crash_n=None):
         return f"V:VValues {o[1]}"
     if o[0] == "dup":
         return f"V:VDup {o[1]} {o[2]}"
+    if o[0] == "hdr":
+        return f"V:VHeader {o[1]}"
     return f"Crash {crash_n}"
 
 
@@ -235,6 +240,17 @@ def drive(path, ops, nh=3, h1=None, h2=b"", b0=b"", init_bytes=None):
         if hs[i] is None:
             continue
         h = hs[i]
+        if kind == "hdr":
+            # what this handle object took from the file header when it was last opened
+            got = (h.h1, h.h2, h.b0)
+            _h1, _l2, _l0 = struct.unpack(">16sHI10x", header[:32])
+            want = _h1, header[32:32 + _l2], header[32 + _l2:32 + _l2 + _l0]
+            if got != want:
+                viol.append(("C02:header-misread", f"handle {i} reports header fields (h1, comment, descriptor) = "
+                             f"({got[0][:12]!r}, {got[1][:12]!r}, {got[2][:12]!r}); the file was created with "
+                             f"({want[0][:12]!r}, {want[1][:12]!r}, {want[2][:12]!r})"))
+            cops.append(op_coq(o)); res.append("V:(VRHdr " + " ".join(cq_bytes(x) for x in got) + ")")
+            continue
         if kind == "put":
             k, v = o[2], o[3]
             views_before = [None if x is None else all_keys(x) for x in hs]
